@@ -43,6 +43,10 @@ CHECKS['C01'] = dict(engine='progenum', category='exploration', section='3/C01',
    technique='bounded-exhaustive enumeration of all well-typed statement sequences up to a length bound x fixture graphs, executed through the production compiler and pipeline and compared with a reference interpreter; all ill-typed sequences up to length 3 must be rejected',
    text='Every well-typed program of length <=3 (quick; <=4 plus length 5 over a 26-instance core alphabet when thorough) over 6 starts and 59 step instances (moves with 3 label lists, hasLabel/hasId/hasKey, 10 has-conditions incl. reserved, nested and mark keys, as/select, fields, render, path, unwind, distinct, count, limit/skip/range) runs on 6 fixture graphs (empty, single vertex, self loop + parallel edges + isolated vertex, edges with absent endpoints, nested/mixed/missing data, shared edge labels in both directions) through kvgraph.Compiler() and pipeline.Start/Convert; the multiset of rows must equal the reference interpreter written from the documentation; truncation steps are judged by count arithmetic and sub-multiset. Crash-isolated workers attribute a process-killing panic to the exact program.',
    note='refsem is the trusted reading of the docs; combinations the docs leave undefined (reads of undefined marks, path after fields/unwind, distinct/unwind over missing or non-list fields, truncation in the middle of a program) are skipped and counted in the evidence.')
+CHECKS['C02'] = dict(engine='progenum', category='exploration', section='3/C02',
+   technique='bounded-exhaustive differential execution: production plan (index-start rewrite + load elision) vs literal fully-loaded plan for every statement sequence up to a length bound, on a backend that ignores and one that honours the do-not-load hint',
+   text='Every statement sequence of length <=3 (<=4 thorough) over the C01 alphabet widened with filters/projections that read earlier steps or marks runs through core.NewCompiler(db, IndexStartOptimize) and through the same statements compiled one by one with every step forced to load and no optimizer, on fresh stores F2/F4/F5 and on a store with a stale label index, each on real kvgraph and on a wrapper that honours load=false on all read paths; rows must be equal as multisets. Corollaries checked for every program: count(P) equals the number of rows of P; four spellings of a leading label filter and of a leading id filter, followed by every continuation, return identical rows.',
+   note='Order-dependent programs (truncation or distinct followed by further steps) are skipped; a final truncation is compared by row count. The literal plan uses only exported functions of engine/core and engine/pipeline.')
 NA_REASON = 'check not built yet in this session (planned in DESIGN.md section 3); nothing is claimed for it'
 
 m = {
